@@ -154,6 +154,7 @@ type chkGenLine struct {
 	Text  string  `json:"text"`
 	Valid bool    `json:"valid"`
 	Names [][]any `json:"names"`
+	Maybe [][]any `json:"maybe"`
 	Nodes [][]any `json:"nodes"`
 }
 
@@ -178,7 +179,12 @@ func cmdChkCheck(args []string) {
 		}
 		delete(obs, "nodes")
 		delete(obs, "flat")
-		lw.write(J{"e": "chk", "id": g.ID, "n": n, "text": g.Text, "valid": g.Valid, "expnames": names, "obs": obs})
+		maybe := make([]any, len(g.Maybe))
+		for i, x := range g.Maybe {
+			normNums(x)
+			maybe[i] = x
+		}
+		lw.write(J{"e": "chk", "id": g.ID, "n": n, "text": g.Text, "valid": g.Valid, "expnames": names, "maybe": maybe, "obs": obs})
 		if g.Valid {
 			nvalid++
 		}
